@@ -173,3 +173,52 @@ func verifHarness_C19_auto() {
 	}
 	verifCover("C19 negotiation")
 }
+
+
+// History: a failed render must not leak into the next response.
+func verifHarness_C19_renderHistory() {
+	first := verifChoice("first", 3)  // 0 JSON, 1 JSONP, 2 XML
+	second := verifChoice("second", 3)
+	failFirst := verifChoice("firstFails", 2) == 1
+	render := func(kind int, w *verifWriter, obj any) error {
+		switch kind {
+		case 0:
+			return JSON(w, obj)
+		case 1:
+			return JSONP("cb", obj, w)
+		}
+		return XML(w, obj)
+	}
+	var obj1 any = verifPayload{N: "one"}
+	verifSetGhost("err.json.Encode", failFirst)
+	verifSetGhost("err.xml.Encode", failFirst)
+	if failFirst && !verifSymbolic() {
+		obj1 = map[string]any{"c": make(chan int)}
+	}
+	w1 := &verifWriter{hdr: http.Header{}}
+	err1 := render(first, w1, obj1)
+	verifAssert((err1 != nil) == failFirst, "the first render fails exactly when its value cannot be encoded")
+	verifSetGhost("err.json.Encode", false)
+	verifSetGhost("err.xml.Encode", false)
+	w2 := &verifWriter{hdr: http.Header{}}
+	err2 := render(second, w2, verifPayload{N: "v"})
+	verifAssert(err2 == nil, "the second render succeeds")
+	body := string(w2.body)
+	if verifSymbolic() {
+		e := "github.com/gookit/rux/pkg/render.verifPayload>"
+		want := map[int]string{0: "<json:" + e, 1: "cb(<json:" + e + ");", 2: xml.Header + "<xml:" + e}[second]
+		verifAssert(body == want, "the second response is exactly the rendering of its own value")
+	} else {
+		var back verifPayload
+		switch second {
+		case 0:
+			verifAssert(json.Unmarshal(w2.body, &back) == nil && back.N == "v", "the second JSON response decodes to its own value")
+		case 1:
+			ok := strings.HasPrefix(body, "cb(") && strings.HasSuffix(body, ");")
+			verifAssert(ok && json.Unmarshal([]byte(body[3:len(body)-2]), &back) == nil && back.N == "v", "the second JSONP response decodes to its own value")
+		case 2:
+			verifAssert(strings.Count(body, "<?xml") == 1 && xml.Unmarshal(w2.body, &back) == nil && back.N == "v", "the second XML response is one document of its own value")
+		}
+	}
+	verifCover("C19 render history")
+}
